@@ -52,4 +52,27 @@ def count_configurations_rec(feature: Feature) -> int:
         elif relation.is_or():
             children_counts = [count_configurations_rec(f) + 1 for f in relation.children]
             counts.append(math.prod(children_counts) - 1)
+        else:  # mutex and cardinality groups
+            children_counts = [count_configurations_rec(f) for f in relation.children]
+            counts.append(count_cardinality_group(children_counts,
+                                                  relation.card_min,
+                                                  relation.card_max))
     return math.prod(counts)
+
+
+def count_cardinality_group(children_counts: list[int], card_min: int, card_max: int) -> int:
+    """Number of configurations of a group [card_min..card_max] given the number of
+    configurations of each child's subtree.
+
+    The ways of selecting exactly k children are the coefficient of x^k in the product
+    of (1 + c_i * x), where c_i is the number of configurations of the i-th child.
+    """
+    if card_max == -1 or card_max > len(children_counts):
+        card_max = len(children_counts)
+    coefficients = [1]
+    for count in children_counts:
+        new_coefficients = coefficients + [0]
+        for k, coefficient in enumerate(coefficients):
+            new_coefficients[k + 1] += coefficient * count
+        coefficients = new_coefficients
+    return sum(coefficients[card_min:card_max + 1])
